@@ -1,30 +1,16 @@
-"""Per-property registration used by tools/mk_manifest.py (MANIFEST.json is generated from this)."""
+"""Per-property registration used by tools/mk_manifest.py (MANIFEST.json is generated from this).
 
-TECH = "Lean 4 theorems over a model (generated from /repo by tools/extract + hand-written), tied by differential correspondence; failing-input search by property oracle on the real code"
+Each claimed property has harness/registry/<ID>.json with keys: text (level_claimed.text), note (level_note = trusted base /
+assumptions / partial clauses), design_ref, optional technique.  A property without a file is listed under not_applicable
+as "not built yet" unless NOT_APPLICABLE gives a real reason.
+"""
+import json
+from pathlib import Path
 
-REGISTRY = {
-    "C20": {
-        "text": "Proof: Lean theorems state the contracts of align/check_range/swap16/SecBootBlckSize/mem-id over bodies that are "
-                "re-translated from /repo's Python AST on every run (so a changed body must re-prove), and of value_to_int, "
-                "get_bytes_cnt_of_int/value_to_bytes, reverse_bits, reverse_bytes_in_longs, change_endianness, swap_bytes, align_block, "
-                "extend_block, BinaryPattern, BcdVersion3 over a hand model tied by exhaustive small-domain correspondence "
-                "(every string <=4 over a 16-char alphabet etc.).",
-        "note": "Trusted: Lean kernel; translator tools/extract/py2lean.py (validated each run: generated functions are also compared with the "
-                "real ones on the sweep); Python built-ins. Not covered: file branch of load_hex_string, non-ASCII strings beyond samples, "
-                "negative ints for get_bytes_cnt_of_int/reverse_bits.",
-        "design_ref": "§6 C20",
-    },
-    "C11": {
-        "text": "Proof: 18 Lean theorems over a hand model of Register/RegsBitField/Registers (bit-level meaning of a field write, get-after-set, "
-                "frame, rejection of values that do not fit, byte-reversed and grouped views consistent, well-formedness preserved by every op, "
-                "history theorems by induction over op sequences: a field reads the last value written to it; export/parse restores every value). "
-                "The model is tied to /repo by comparing the complete observable state after every op of random op sequences over random layouts.",
-        "note": "Trusted: Lean kernel, the op-sequence correspondence (generator quality bounds the tie), Python int semantics. Config processors other "
-                "than SHIFT_RIGHT, alt-width registers (oracle only), YAML rendering are not modelled. get_config/load_yml_config round trip and purity "
-                "of read-only queries are decided on the real code (differential), not by theorem.",
-        "design_ref": "§6 C11",
-    },
-}
+TECH = ("Lean 4 theorems over a model (generated from /repo by tools/extract + hand-written), tied by differential correspondence; "
+        "failing-input search by property oracle on the real code")
 
-# properties the technique cannot decide at all (none so far); others not yet in REGISTRY are listed as "not built yet"
+REGISTRY = {p.stem: json.loads(p.read_text()) for p in sorted((Path(__file__).parent / "registry").glob("C*.json"))}
+
+# properties the technique cannot decide at all (none so far)
 NOT_APPLICABLE = {}
